@@ -102,8 +102,8 @@ template <class X> void run(Ctx& c, const Str& Ss, const Str& Bs, const char* ge
         Str snapS = deep_snapshot<X>(S.u), snapB = deep_snapshot<X>(B.u);
         UriBox<X> D; memset(&D.u, 0xEE, sizeof D.u); int rc;
         c.stage((uint64_t)variant + 1);
-        const typename X::Uri* src = (Ss == Bs && variant == 0) ? &B.u : &S.u;      // source and base the very same object
-        { LibScope ls; if (variant < 2) rc = X::RemoveBaseUri(&D.u, src, &B.u, modeArg); else { D.led = &led; rc = X::RemoveBaseUriMm(&D.u, &S.u, &B.u, modeArg, led.mgr()); } }
+        const typename X::Uri* src = (Ss == Bs && (variant == 0 || (c.case_index & 1))) ? &B.u : &S.u;      // source and base the very same object, in either mode
+        { LibScope ls; if (variant < 2) rc = X::RemoveBaseUri(&D.u, src, &B.u, modeArg); else { D.led = &led; rc = X::RemoveBaseUriMm(&D.u, src, &B.u, modeArg, led.mgr()); } }
         c.evaluations++;
         Str what = fmt("source=\"%s\" base=\"%s\" %s", esc(Ss).c_str(), esc(Bs).c_str(), root ? "domain-root" : "relative");
         if (deep_snapshot<X>(S.u) != snapS || deep_snapshot<X>(B.u) != snapB) c.violation("C12", fmt("shorten/%s/const-argument-modified", X::tag()), what);
